@@ -26,7 +26,7 @@ abbrev Dir := Option (List Entry)   -- none: the target directory does not exist
 /-- cleanDir's filter: suffix `_gen.go` / `_gen_test.go`, prefix `openapi` / `oas`, not a directory -/
 def isOwn (e : Entry) : Bool :=
   !e.isDir && (e.name.endsWith "_gen.go" || e.name.endsWith "_gen_test.go") &&
-    (e.name.startsWith "openapi" || e.name.startsWith "oas")
+    (e.name.startsWith "oas" || e.name.startsWith "openapi")
 
 def cleanDir (es : List Entry) : List Entry := es.filter (fun e => !isOwn e)
 
